@@ -73,8 +73,10 @@ def main():
         for m in sel:
             try:
                 apply(m)
-            except SystemExit as e:
-                print("SKIP", e); continue
+            except (SystemExit, subprocess.CalledProcessError) as e:
+                print("SKIP", m[0], e, flush=True)
+                subprocess.run(["git", "-C", REPO, "checkout", "--", "."])
+                continue
             try:
                 base = baseline() if do_base else (None, [])
                 row = {"mutant": m[0], "baseline_passes": base[0], "checks": {}}
